@@ -82,7 +82,11 @@ CLAIMED = {
              "type-correct maps with up to 2 (shallow parts 3) keys that are symbols or arbitrary sub-terms x all "
              "acyclic interpretations of 1-2 function symbols, through FNode.substitute, env.substituter and fresh "
              "MGS/MSS instances. The result must BE the formula built by the reference replacement; for capture-free "
-             "symbol maps the lemma ev(sub(f,s),I)=ev(f,I[x->ev(s x,I)]) is checked under every interpretation.",
+             "symbol maps the lemma ev(sub(f,s),I)=ev(f,I[x->ev(s x,I)]) is checked under every interpretation. "
+             "All-operators part: every term of the standard profiles (all bit-vector operators at widths 1-3, strings, "
+             "Int/Real, arrays incl. literals, cross-theory) x every one-key map from a symbol or constant sub-term to "
+             "another leaf of its sort, three routes, against a top-down replacement on the JSON form of the term "
+             "re-built through the public constructors.",
         note="Trusted: RefSub in mc/props/c05.py (written from the Substituter docstrings) and refsem. Capture cases "
              "and maps whose keys are free symbols of interpretation bodies are compared with the documented "
              "replacement only.",
@@ -174,7 +178,11 @@ CLAIMED = {
              "partial order, combine is an upper bound, get_closer_logic / most_generic_logic / get_closer_smtlib_logic "
              "over the library's own supported lists and all subsets of size <=2 (thorough <=3) of the base logics, and "
              "the factory's solver selection; (b) for every term of all profiles an independent extraction of required "
-             "features must be enabled by get_logic / get_theory / the set-logic of smtlibscript_from_formula.",
+             "features must be enabled by get_logic / get_theory / the set-logic of smtlibscript_from_formula; hand-off: "
+             "nine factory shortcuts (is_sat, is_valid, is_unsat, get_model, get_implicant, qelim, get_unsat_core and the "
+             "interpolants over clause pairs) over recording stubs registered under one name in four registries with "
+             "different LOGICS lists: the logic an object is created for is one of its own list and enables everything in "
+             "the formulas it is handed.",
         note="Trusted: the feature extraction in mc/props/c13.py. A clean NoLogicAvailableError is safe and counted.",
         design="§3 C13"),
     "C17": dict(
@@ -239,7 +247,10 @@ CLAIMED = {
              "the returned Theory), six size measures, printing, parsing, nnf/cnf/prenex/aig, 19 constant spellings, "
              "FreshSymbol. After each history ~380 probes are run (in both orders where value-keyed caches matter) and "
              "compared with a fresh environment up to commutative order and fresh-symbol numbering; repeating a call "
-             "must return the same object.",
+             "must return the same object. Construction order: in lazy worlds (symbols and formulas are created on first "
+             "use, so the history changes node ids) all histories of length <= 2 of build / constant / FreshSymbol / "
+             "parse events before each of 26 target formulas exists, then every query on the target, compared with an "
+             "environment in which the target is the first thing built.",
         note="No state merging (the state is the history). Trusted: the canonical forms in mc/core/histworld.py.",
         design="§3 C14"),
     "C15": dict(
@@ -251,7 +262,9 @@ CLAIMED = {
              "symbol in every universe formula, foreign keys, redefinition, wrong arity, SMT-LIB and HR text cut or "
              "corrupted at every token position (long-lived parser objects), model evaluation errors, an injected "
              "exception at the k-th callback for every k of 8 walkers, and solver calls that raise (refused formula, "
-             "unknown, pop beyond depth, error reply to assert/declare/check-sat/push through SmtLibSolver).",
+             "unknown, pop beyond depth, error reply to assert/declare/check-sat/push through SmtLibSolver, and natural "
+             "refusals there: get_value without a model or of an undeclared symbol, pop beyond depth), argument-less "
+             "failing constructions through create_node.",
         note="Injected faults are installed from outside by wrapping walker.functions. The tracking-solver part uses "
              "the harness' BruteSolver; failures inside a concrete solver's own _solve are out of reach.",
         design="§3 C15"),
@@ -263,9 +276,12 @@ CLAIMED = {
         text="(a) every legal command sequence up to length 4 (17-command alphabet), 5 (10 commands) and 8 "
              "(5 commands) - thorough 5/6/10 - is built through script.add and through the parser and "
              "get_last_formula (formula, goals, soft clauses, weights, signedness) is compared with the reference "
-             "model; (b) all reachable (implementation x native solver x reference) states of the tracking solver "
-             "to depth 6 (thorough 8) over add/push n/pop n/reset/solve/assumptions/is_sat/is_valid/is_unsat/read; "
-             "assertions, native stack and verdicts are checked in every state.",
+             "model, the objective term() of every soft-clause goal is evaluated against the weighted sum of the live "
+             "soft clauses; (b) all reachable (implementation x native solver x reference) states of the tracking solver "
+             "to depth 6 (thorough 8) over add/push n/pop n/reset/solve/assumptions/is_sat/is_valid/is_unsat/read and "
+             "one-shot queries that are refused or answered unknown, repeated with generate_models=False (depth 5/7), a "
+             "second solver object being alive during every history; assertions, native stack and verdicts are checked "
+             "in every state.",
         note="Trusted: the reference stack model in mc/props/c16.py and BruteSolver (mc/core/refsolver.py), which "
              "follows the protocol of the concrete solvers (clear_pending_pop on proxy methods). Sequences beyond "
              "the length/depth bounds are not covered.",
